@@ -34,7 +34,7 @@ package fasthttp
 // The scanners cut a header at ';' bytes only: one call consumes everything up to and including the first ';'
 // (and one following space), so a header with n ';' bytes yields at most n+1 pairs.
 //@ func cookieScanner.nextRaw results r
-//@   property C06
+//@   property C06 C08
 //@   ensures[empty] r == (old(len(s.b)) > 0)
 //@   ensures[advances] r ==> len(s.b) < old(len(s.b))
 //@   ensures[whole-when-no-semicolon] r && semifree(old(s.b), old(len(s.b))) ==> len(s.b) == 0
@@ -47,7 +47,7 @@ package fasthttp
 
 // trimCookieArgNoCopy returns a window of its argument (no copy, no write).
 //@ func trimCookieArgNoCopy results r
-//@   property C06
+//@   property C06 C08
 //@   pure
 //@   ensures[window] rgn(r) == rgn(old(src)) && off(old(src)) <= off(r) && off(r) + len(r) <= off(old(src)) + len(old(src))
 //@   loop 1:
@@ -57,7 +57,7 @@ package fasthttp
 
 // decodeCookieArg copies a window of src (spaces and one pair of quotes trimmed) into dst's storage.
 //@ func decodeCookieArg results r
-//@   property C06
+//@   property C06 C08
 //@   modifies dst
 //@   ensures[grown] extends(r, dst[:0])
 //@   ensures[window-of-src] exists w in [0, len(old(src))]: w + len(r) <= len(old(src)) && forall j in [0,len(r)): r[j] == old(src[w+j])
@@ -67,7 +67,7 @@ package fasthttp
 //@     invariant[window] rgn(src) == rgn(old(src)) && off(old(src)) <= off(src) && off(src) + len(src) <= off(old(src)) + len(old(src))
 
 //@ func cookieScanner.next results r
-//@   property C06
+//@   property C06 C08
 //@   requires[own-buffers] rgn(deref(key)) != rgn(s.b) && rgn(deref(val)) != rgn(s.b)
 //@   ensures[empty] r == (old(len(s.b)) > 0)
 //@   ensures[advances] r ==> len(s.b) < old(len(s.b))
@@ -82,14 +82,14 @@ package fasthttp
 //@     invariant[own-storage] reuses(deref(key), deref(key)) && reuses(deref(val), deref(val))
 
 //@ func validCookieValue results ok
-//@   property C06
+//@   property C06 C08
 //@   pure
 //@   ensures[def] ok == forall j in [0,len(value)): value[j] != '"' && value[j] != ';' && value[j] != 92
 //@   loop 1:
 //@     invariant[so-far] forall j in [0,_i): value[j] != '"' && value[j] != ';' && value[j] != 92
 
 //@ func validCookiePathValue results ok
-//@   property C06
+//@   property C06 C08
 //@   pure
 //@   ensures[no-semicolon] ok ==> semifree(value, len(value))
 //@   ensures[printable] ok ==> forall j in [0,len(value)): value[j] == 13 || value[j] == 10 || (32 <= value[j] && value[j] < 127)
